@@ -34,7 +34,7 @@ def run_np_case(rec, k):
         name, args, kw = FORMS.get(f, (f, (), {}))
         if f.startswith("power_"):
             import osyris
-            name, args = "power", ({"power_int2": 2, "power_nd2": np.array(2), "power_nd3": np.array(3), "power_q2": 2 * osyris.units("dimensionless"), "power_a3": A(3.0)}[f],)
+            name, args = "power", ({"power_int2": 2, "power_nd2": np.array(2), "power_nd3": np.array(3), "power_q2": 2 * osyris.units("dimensionless"), "power_a3": A(3.0), "power_s2": A(0.02, unit="m/cm")}[f],)
         fn = getattr(np, name)
         sa = snapshot(a)
         try:
@@ -43,7 +43,7 @@ def run_np_case(rec, k):
             return "mismatch", f"np.{name}{args}{kw} raised {type(e).__name__}: {e}", {}
         if not same_snapshot(sa, snapshot(a)):
             return "mismatch", f"np.{name} modified its argument", {}
-        want = fn(raw, *[(x.values if isinstance(x, A) else getattr(x, "magnitude", x)) for x in args], **kw)
+        want = fn(raw, *[(2.0 if f == "power_s2" else x.values if isinstance(x, A) else getattr(x, "magnitude", x)) for x in args], **kw)
         return _compare(res, want, o, [dt], 0.0, f)
     # two operands / sequences / out=
     rdt = dt if rk in ("arr", "out") else "f8"
@@ -87,6 +87,18 @@ def run_np_case(rec, k):
             return "mismatch", f"unit: spec {exp_unit} != impl {got} (out= array must carry the unit of the result)", {}
         if not np.allclose(np.asarray(res._array, dtype=float), np.asarray(want, dtype=float), rtol=1e-12):
             return "mismatch", f"value: out= array holds {res._array!r}, numpy gives {want!r}", {}
+        if f == "multiply" and k % 2 == 1:
+            # out= is the SECOND operand (in another unit): the result unit is still the product of the operand units
+            b2 = A(rarr.astype(float).copy(), unit=UNITSTR[ru])
+            prod = sparse_of_pint((A(1.0, unit=UNITSTR[lu]) * A(1.0, unit=UNITSTR[ru])).unit)
+            try:
+                r2 = np.multiply(a, b2, out=b2)
+            except Exception as e:
+                return "mismatch", f"np.multiply(a, b, out=b) raised {type(e).__name__}: {e}", {}
+            if r2 is not b2 or sparse_of_pint(r2.unit) != prod:
+                return "mismatch", f"unit: np.multiply(a [{lu}], b [{ru}], out=b) has unit {sparse_of_pint(r2.unit)}, the product unit is {prod}", {}
+            if not np.allclose(np.asarray(r2._array, dtype=float), np.asarray(raw, dtype=float) * np.asarray(rarr, dtype=float), rtol=1e-12):
+                return "mismatch", f"value: np.multiply(a, b, out=b) holds {r2._array!r}", {}
         return "match", None, {}
     seq = f in ("concatenate", "stack", "hstack", "vstack")
     swap = seq and rk == "nd1" and k % 2 == 0          # the plain array first, the Array after it
